@@ -2262,18 +2262,18 @@ def run_hubgatespec(inp):
     ]
     nq = 3
     for name, gate, m in one:
-        xh_spec(f"{name} matrix", float(np.abs(Operator(gate).data - m).max()), 1e-14)
+        xh_spec(f"{name} matrix", float(np.abs(Operator(gate).data - m).max()), 1e-12)
         q = rng.randrange(nq)
         c = QuantumCircuit(nq)
         c.append(gate, [q])
-        xh_spec(f"{name} on qubit {q} of {nq}", float(np.abs(Operator(c).data - kron_le({q: m}, nq)).max()), 1e-14)
+        xh_spec(f"{name} on qubit {q} of {nq}", float(np.abs(Operator(c).data - kron_le({q: m}, nq)).max()), 1e-12)
     for (a, b) in [(0, 1), (1, 0), (0, 2), (2, 0), (1, 2)]:
         c = QuantumCircuit(nq)
         c.append(CXGate(), [a, b])
-        xh_spec(f"cx({a},{b})", float(np.abs(Operator(c).data - (kron_le({a: P0}, nq) + kron_le({a: P1, b: PAULI['X']}, nq))).max()), 1e-14)
+        xh_spec(f"cx({a},{b})", float(np.abs(Operator(c).data - (kron_le({a: P0}, nq) + kron_le({a: P1, b: PAULI['X']}, nq))).max()), 1e-12)
         c = QuantumCircuit(nq)
         c.append(CPhaseGate(th), [a, b])
-        xh_spec(f"cp({a},{b})", float(np.abs(Operator(c).data - (kron_le({a: P0}, nq) + kron_le({a: P1, b: ph}, nq))).max()), 1e-14)
+        xh_spec(f"cp({a},{b})", float(np.abs(Operator(c).data - (kron_le({a: P0}, nq) + kron_le({a: P1, b: ph}, nq))).max()), 1e-12)
     return {"req": None, "impl": None, "oracle": None, "kind": "hubbard-gatespec", "sig": "hubgatespec", "nontrivial": False}
 
 
